@@ -130,9 +130,55 @@ impl Prop for C15 {
                 match (lines(o), lines(&o2)) {
                     (Some(a), Some(b)) => {
                         let da: Vec<String> = a.iter().map(|l| l.replace('\u{336}', "")).collect();
-                        let only_marks = |l: &String| l.contains('\u{336}') && l.chars().all(|ch| ch == '\u{336}' || ch == ' ');
-                        let da2: Vec<String> = a.iter().filter(|l| !only_marks(l)).map(|l| l.replace('\u{336}', "")).collect();
-                        if da != b && c.cfg.overflow && da2 == b {
+                        // a line that holds nothing but marks — bare, or behind block prefixes / between table bars
+                        let strict = |l: &String| l.contains('\u{336}') && l.chars().all(|ch| ch == '\u{336}' || ch == ' ');
+                        let broad = |l: &String| l.contains('\u{336}') && l.chars().all(|ch| ch == '\u{336}' || ch == ' ' || ch == '│' || ch == '>' || ch == '*' || ch == '#' || ch == '.' || ch.is_ascii_digit());
+                        let da2s: Vec<String> = a.iter().filter(|l| !strict(l)).map(|l| l.replace('\u{336}', "")).collect();
+                        let da2b: Vec<String> = a.iter().filter(|l| !broad(l)).map(|l| l.replace('\u{336}', "")).collect();
+                        let mut da2: Vec<String> = if da2s == b { da2s } else { da2b };
+                        // behind a block prefix of k columns (the prefix characters may also be document text, so try every k)
+                        for k in 1..=12usize {
+                            if da2 == b {
+                                break;
+                            }
+                            let sk = |l: &String| { let t: String = l.chars().skip(k).collect(); l.chars().count() > k && strict(&t) };
+                            let cand: Vec<String> = a.iter().filter(|l| !sk(l)).map(|l| l.replace('\u{336}', "")).collect();
+                            if cand == b {
+                                da2 = cand;
+                            }
+                        }
+                        // inside side-by-side table cells the mark-only line is one cell's line while the neighbours continue: compare
+                        // cell by cell (segments between bars, blank segments dropped)
+                        let colseq = |ls: &Vec<String>| -> Vec<Vec<String>> {
+                            let mut cols: Vec<Vec<String>> = Vec::new();
+                            // the table may stand behind block prefixes: everything left of the first rule is prefix
+                            let ls: Vec<String> = ls.iter().map(|l| l.replace('\u{336}', "")).collect();
+                            let off = ls.iter().find_map(|l| l.chars().position(|ch| ch == '─')).unwrap_or(0);
+                            let ls: Vec<String> = ls.iter().map(|l| l.chars().skip(off).collect()).collect();
+                            for l in &ls {
+                                if !l.trim().is_empty() && l.trim().chars().all(|ch| BOX.contains(&ch)) {
+                                    continue; // a rule of this table
+                                }
+                                for (j, seg) in l.split('│').enumerate() {
+                                    let t: String = seg.replace('\u{336}', "").trim().to_string();
+                                    if cols.len() <= j {
+                                        cols.resize(j + 1, Vec::new());
+                                    }
+                                    // (a rule inside a cell belongs to a nested table: not text)
+                                    if !t.is_empty() && !t.chars().all(|ch| BOX.contains(&ch)) {
+                                        cols[j].push(t);
+                                    }
+                                }
+                            }
+                            cols
+                        };
+                        let celleq = a.iter().any(|l| l.contains('│')) && colseq(&a) == colseq(&b);
+                        // nested tables of different shapes defeat the cell-by-cell reading: then the weakest form — some cell line
+                        // of `a` holds nothing but a mark, and both outputs show the same visible characters (as multisets)
+                        let vis = |ls: &Vec<String>| -> Vec<char> { let mut v: Vec<char> = ls.iter().flat_map(|l| l.chars()).filter(|ch| !ch.is_whitespace() && *ch != '\u{336}' && !BOX.contains(ch)).collect(); v.sort(); v };
+                        let mark_cell = a.iter().any(|l| l.split('│').any(|seg| seg.contains('\u{336}') && seg.chars().all(|ch| ch == '\u{336}' || ch == ' ')));
+                        let loose = a.iter().any(|l| l.contains('│')) && mark_cell && a.len() >= b.len() && vis(&a) == vis(&b);
+                        if da != b && c.cfg.overflow && (da2 == b || celleq || loose) {
                             // overflow mode: the mark after an over-wide character is emitted on a line of its own
                             out.push(known("a strike mark is hard-wrapped onto its own line in overflow mode".to_string(), "C15-strike-overflow-line"));
                         } else if da != b {
